@@ -99,6 +99,13 @@ def cases(tier, seed):
         for e in progs:
             for cfg in (('f32', True), ('f32', False), ('f64', True)):
                 out.append(('struct', fam, e, cfg))
+    for kind in ('row', 'col', 'diag'):
+        for cont in ('list', 'dict', 'nest', 'tuple'):
+            for ar in (1, 2, 3):
+                blocks = tuple(('leaf', n, i) for i, n in enumerate(['A', 'D', 'k'][:ar]))
+                out.append(('struct', 'vec', (kind, cont, blocks), ('f32', False)))
+                out.append(('struct', 'vec', ('T', (kind, cont, blocks)), ('f64', True)))
+    out.append(('custom',))
     return out
 
 
@@ -200,9 +207,42 @@ def _struct(fam, e, cfg, twin=False):
         return go()
 
 
+def _custom():
+    """The generic size / promoted-dtype helpers on a harness-defined operator whose output dtypes differ from its input dtypes."""
+    from furax._base.core import AbstractLinearOperator
+
+    class Widen(AbstractLinearOperator):
+        def mv(self, x):
+            return {'c': x['a'][:2], 'd': jnp.concatenate([x['b'], x['b']]).astype(jnp.float64), 'e': x['a'].astype(jnp.float16)}
+
+        def in_structure(self):
+            return {'a': jax.ShapeDtypeStruct((3,), jnp.float32), 'b': jax.ShapeDtypeStruct((4,), jnp.float16)}
+    op = Widen()
+    bad = []
+    outs = jax.eval_shape(op.mv, op.in_structure())
+    if not structs_equal(op.out_structure(), outs):
+        bad.append('out_structure')
+    if op.in_size() != 7 or op.out_size() != 2 + 8 + 3:
+        bad.append(f'in_size={op.in_size()} out_size={op.out_size()}')
+    if np.dtype(op.in_promoted_dtype) != np.dtype(jnp.float32):
+        bad.append(f'in_promoted_dtype={op.in_promoted_dtype}')
+    if np.dtype(op.out_promoted_dtype) != np.dtype(jnp.float64):
+        bad.append(f'out_promoted_dtype={op.out_promoted_dtype}')
+    t = op.T
+    if not structs_equal(t.in_structure(), outs) or not structs_equal(t.out_structure(), op.in_structure()):
+        bad.append('transpose structures')
+    if np.dtype(t.in_promoted_dtype) != np.dtype(jnp.float64) or np.dtype(t.out_promoted_dtype) != np.dtype(jnp.float32):
+        bad.append('transpose promoted dtypes')
+    if bad:
+        return violation('generic structure helpers on an operator with different input/output dtypes: ' + ', '.join(bad), signature='c05-custom:' + ','.join(bad)[:80], kind='struct')
+    return ok(obligations=0, structure_checks=1, nontrivial=True, sample=dict(operator='harness-defined Widen (f32,f16) -> (f32,f64,f16)'))
+
+
 def run_case(key, twin=False):
     if key and key[0] == 'twin':
         return run_case(key[1], twin=True)
+    if key[0] == 'custom':
+        return _custom()
     if key[0] == 'symdim':
         return _symdim(key[1], twin)
     _, fam, e, cfg = key
